@@ -117,6 +117,8 @@ class Interp:
         fresh_calls: Optional[Sequence[str]] = None,
         unroll: int = 1,
         local_bindings: Optional[Dict[str, Any]] = None,
+        auto_inline: bool = True,
+        fork_while: bool = False,
     ):
         self.mod = mod
         self.consts = dict(mod.consts)
@@ -135,6 +137,12 @@ class Interp:
         self.fresh_calls = set(fresh_calls or ())
         self.unroll = unroll
         self.local_bindings = {k: freeze(v) for k, v in (local_bindings or {}).items()}
+        # transparent inlining of private helpers of the same module / class that are not named in `inline`: a helper that a
+        # refactoring extracted is analysed as if its body were still in place (same depth, same loop context)
+        self.auto_inline = auto_inline
+        self.fork_while = fork_while
+        self.inline_stack: List[int] = []
+        self.cur_class: Optional[str] = None
         self.fresh_count: Dict[Sym, int] = {}
         # per-run state
         self.choices: List[bool] = []
@@ -152,6 +160,11 @@ class Interp:
         # names assigned somewhere in the function: reading one that is unbound on the current path means
         # "whatever an earlier loop iteration left there" (or an UnboundLocalError)
         self.top_locals = {n.id for n in ast.walk(fn) if isinstance(n, ast.Name) and isinstance(n.ctx, ast.Store)}
+        self.cur_class = None
+        for q, nodes in self.mod.defs.items():
+            if any(x is fn for x in nodes) and "." in q:
+                self.cur_class = q.rsplit(".", 1)[0]
+        self.top_fn = fn
         paths: List[Path] = []
         prefix: List[bool] = []
         while True:
@@ -355,6 +368,13 @@ class Interp:
             return
         if isinstance(st, ast.While):
             t = self._ev(st.test)
+            if self.fork_while and simplify(t)[0] != "c":
+                # the loop may not be entered at all (its test decides, like an `if`)
+                if not self.truth_sym(t):
+                    self.emit("loop", ("while", t), st)
+                    self.emit("endloop", ("while", t), st)
+                    self._block(st.orelse)
+                    return
             self.emit("loop", ("while", t), st)
             self.loops.append(("while", t))
             try:
@@ -726,6 +746,14 @@ class _EvalBuilder(_Builder):
                     return s
             if name == "str" and len(args) == 1 and args[0][0] == "c" and isinstance(args[0][1], (int, str)):
                 return C(str(args[0][1]))
+            if name == "divmod" and len(args) == 2 and args[1][0] == "c" and isinstance(args[1][1], int) and not isinstance(args[1][1], bool) and args[1][1] > 0:
+                d = args[1][1]
+                if args[0][0] == "c" and isinstance(args[0][1], int):
+                    return C(divmod(args[0][1], d))
+                if d & (d - 1) == 0:
+                    # divmod(x, 2**k) == (x >> k, x & (2**k - 1)) for every int x
+                    k = d.bit_length() - 1
+                    return ("tuple", (simplify(OP(">>", args[0], C(k))), simplify(OP("&", args[0], C(d - 1)))))
             if name in ("tuple", "list") and len(args) == 1 and args[0][0] == "c" and isinstance(args[0][1], (tuple, frozenset)):
                 return C(tuple(args[0][1]))
             if name in ("set", "frozenset") and len(args) == 1 and args[0][0] == "c" and isinstance(args[0][1], (tuple, frozenset)):
@@ -741,7 +769,8 @@ class _EvalBuilder(_Builder):
                 return C(recv.join(args[0][1]))
             if isinstance(recv, HDict) and f[2] == "get":
                 try:
-                    return C(recv.get(*[a[1] for a in args]))
+                    from .sym import const_or_name
+                    return const_or_name(recv.get(*[a[1] for a in args]))
                 except Exception:
                     return s
         return s
@@ -765,11 +794,17 @@ class _EvalBuilder(_Builder):
         i = self.i
         name = dotted(s[1])
         tgt = i.inline.get(name)
+        transparent = False
         if tgt is None:
-            return None
-        if i.depth >= i.max_depth:
+            tgt = self._auto_target(s, name)
+            if tgt is None:
+                return None
+            transparent = True
+        if (len(i.inline_stack) if transparent else i.depth) >= i.max_depth:
             return None
         mod, fn = tgt
+        if transparent and (id(fn) in i.inline_stack or fn is getattr(i, "top_fn", None)):
+            return None
         params = [p.arg for p in fn.args.posonlyargs + fn.args.args]
         is_method = bool(params) and params[0] in ("self", "cls") and s[1][0] == "a"
         argmap: Dict[str, Sym] = {}
@@ -787,7 +822,10 @@ class _EvalBuilder(_Builder):
             argmap[k] = v
         saved_consts = i.consts
         saved_mod = i.mod
-        i.depth += 1
+        if transparent:
+            i.inline_stack.append(id(fn))
+        else:
+            i.depth += 1
         try:
             if mod is not i.mod:
                 i.consts = dict(mod.consts)
@@ -798,9 +836,55 @@ class _EvalBuilder(_Builder):
                 raise
             return value
         finally:
-            i.depth -= 1
+            if transparent:
+                i.inline_stack.pop()
+            else:
+                i.depth -= 1
             i.consts = saved_consts
             i.mod = saved_mod
+
+    def _auto_target(self, s: Sym, name: str):
+        """a private helper of the same module (`_helper(...)`) or a private method of the class under analysis
+        (`self._m(...)`, `self.__m(...)`, `cls._m(...)`) that is small, loop-light and not a generator"""
+        i = self.i
+        if not i.auto_inline or self.pure:
+            return None
+        fn = None
+        f = s[1]
+        if f[0] == "n" and f[1].startswith("_") and not f[1].startswith("__") and i.mod.has(f[1]):
+            cands = [x for x in i.mod.defs[f[1]] if isinstance(x, ast.FunctionDef)]
+            fn = cands[0] if len(cands) == 1 else None
+        elif f[0] == "a" and f[1] in (N("self"), N("cls")) and f[2].startswith("_") and not (f[2].startswith("__") and f[2].endswith("__")) and i.cur_class:
+            q = f"{i.cur_class}.{f[2]}"
+            if i.mod.has(q):
+                cands = [x for x in i.mod.defs[q] if isinstance(x, ast.FunctionDef)]
+                fn = cands[0] if len(cands) == 1 else None
+        if fn is None:
+            return None
+        qual = next((q for q, nodes in i.mod.defs.items() if any(x is fn for x in nodes)), None)
+        if qual is None or qual in _known_units().get(i.mod.rel, ()):
+            return None      # a unit the rules know by name stays a named unit
+        if fn.decorator_list and any(ast.unparse(d).split("(")[0].split(".")[-1] not in ("staticmethod", "classmethod") for d in fn.decorator_list):
+            return None
+        n_stmts = sum(1 for _ in ast.walk(fn) if isinstance(_, ast.stmt))
+        if n_stmts > 40 or any(isinstance(x, (ast.Yield, ast.YieldFrom, ast.Await, ast.Try)) for x in ast.walk(fn)):
+            return None
+        if fn.args.vararg or fn.args.kwarg:
+            return None
+        return (i.mod, fn)
+
+
+_KNOWN_UNITS: Optional[Dict[str, Any]] = None
+
+
+def _known_units() -> Dict[str, Any]:
+    global _KNOWN_UNITS
+    if _KNOWN_UNITS is None:
+        import json
+        from pathlib import Path as _P
+        f = _P(__file__).with_name("known_units.json")
+        _KNOWN_UNITS = {k: set(v) for k, v in json.loads(f.read_text())["units"].items()} if f.exists() else {}
+    return _KNOWN_UNITS
 
 
 # ---------------------------------------------------------------------------
